@@ -167,8 +167,14 @@ def c26_quote(s):
     return '"' + s + '"'
 
 
-def known_class(kind, inp, src, exc):
-    """id of the recorded C02 finding an accepted program ending in a type-related error falls in (row stream / generator stream)"""
+def known_class(kind, inp, src, exc, stderr=""):
+    """id of the recorded C02 finding an accepted program ending in a type-related error falls in (row stream / generator stream):
+    a structural feature of the program AND the failure signature"""
+    if kind == "gen":
+        feats = inp[1:-1].split(" ")[1:]
+        if "enum-minus" in feats and exc == "ValueError" and "Nat can't be negative" in stderr:
+            return "C02-enum-minus-inferred-nat"
+        return None
     if kind == "row":
         m = re.match(r'^\(row (\S+) "([^"]+)" "([^"]+)"\)$', inp)
         if not m:
@@ -247,6 +253,7 @@ def run(ctx, replay_cases=None):
         for cid, inp, src in gen_rows(rng, decl, nr, ctx.seed * 101):
             cases.append((cid, inp, src, "row"))
         for pid, prog, feats in fragrun.gen_programs(ctx.seed + 4242, ng, zero_div=True):
+            feats = sorted(set(feats) | fraggen.tree_features(prog))
             cases.append(("g" + pid, "(gen %s)" % " ".join(feats), fraggen.to_erg(prog), "gen"))
     res = fragrun.run_programs([(c[0], c[2], None) for c in cases], erg, jobs=10)
     # a loaded machine makes `erg compile` exceed the per-program timeout now and then: retry those alone, then leave them out
@@ -262,6 +269,7 @@ def run(ctx, replay_cases=None):
         res = [res[i] for i in keep]
     rows = [(c[0], c[1], canon_impl(r)) for c, r in zip(cases, res)]
     r_res = {c[0]: r["erg_class"] for c, r in zip(cases, res)}
+    r_err = {c[0]: r.get("erg_err", "") for c, r in zip(cases, res)}
     known_ids = {e["id"] for e in ctx.known_findings()}
     mrc, mrows, merr = core.run_model(PROP, rows)
     cmp_ = core.compare(rows, mrows, known_ids)
@@ -285,7 +293,7 @@ def run(ctx, replay_cases=None):
                 (py_known if k in known_ids else py_viol).append((cid, inp, impl, c[2], k))
             continue
         if impl.startswith("exc:") and impl[4:] in TYPE_ERR:
-            k = known_class(kind, inp, c[2], impl[4:])
+            k = known_class(kind, inp, c[2], impl[4:], r_err.get(cid, ""))
             (py_known if k in known_ids else py_viol).append((cid, inp, impl, c[2], k))
         elif impl.startswith("crash"):
             pass        # crashes of the checker are C07's subject
